@@ -152,6 +152,25 @@ def pipeline_laws(arg):
                             if float((pj2 - pj).abs().max()) > 2e-4 * float(pj.abs().max()):
                                 out.append((f"C16:fourier-projection:idempotent:{par}-roi", f"{tag} wave {shp[0]}x{shp[1]} modes={nm}: not idempotent"))
                                 break
+                        # waves whose Fourier transform has EXACT zeros where the measured amplitude is not zero (an empty, a
+                        # uniform, a single-plane-wave and a checkerboard exit wave): the projection still yields the measured
+                        # amplitudes (the phase of a zero coefficient is free, its amplitude is not)
+                        for shp in ((6, 6), (5, 8)):
+                            rr, cc = np.meshgrid(np.arange(shp[0]), np.arange(shp[1]), indexing="ij")
+                            waves = {"empty": np.zeros(shp, dtype=complex), "uniform": np.full(shp, 0.5 - 0.25j),
+                                     "plane-wave": np.exp(2j * np.pi * (rr / shp[0])) if True else None,
+                                     "checkerboard": ((-1.0) ** (rr + cc)).astype(complex) if shp[0] % 2 == 0 and shp[1] % 2 == 0 else np.full(shp, 2.0 + 0j)}
+                            for wname, wv in waves.items():
+                                ov = torch.tensor(np.broadcast_to(wv, (nm, 2) + shp).copy(), dtype=overlap.dtype)
+                                Am = torch.tensor(rng.uniform(0.5, 1.5, size=(2,) + shp), dtype=pred.dtype)
+                                pj = p.fourier_projection(Am, ov)
+                                am = p.estimate_amplitudes(pj, corner_centered=False)
+                                if not bool(torch.isfinite(am).all()) or float((am - Am).abs().max()) > 2e-4 * float(Am.max()):
+                                    kind = "single-state" if nm == 1 else "mixed-state"
+                                    out.append((f"C16:fourier-projection:zero-coefficients:{kind}",
+                                                f"{tag} {wname} wave {shp[0]}x{shp[1]} modes={nm}: projected amplitudes differ from the measured ones by "
+                                                f"{float((am - Am).abs().max()):.3g} where the wave's Fourier coefficient is exactly zero"))
+                                    break
     except Exception as ex:  # noqa: BLE001
         out.append(("C16:pipeline:raised", f"{tag}: {type(ex).__name__}: {str(ex)[:200]}"))
     return out, tables
